@@ -151,25 +151,28 @@ def handle (op : String) (j : Json) : Except String Json := do
     let kw := strD j "kw"
     let name ← strField j "name"
     let contents ← strListField j "contents"
-    let t : TB := { lines := contents }
+    let header := (strListField j "header").toOption.getD []
+    let t : TB := { header := header, lines := contents }
     let r := structStr kw name t
     let failed := if impl.isNull then [] else
       match impl.getStr? with
       | .ok s =>
-        if splitlines s.toList = [kw ++ L " " ++ name, L "{"] ++ contents ++ [L "};"] then []
+        -- contents = header lines + content lines of the block handed in; unchanged between the braces
+        if splitlines s.toList = [kw ++ L " " ++ name, L "{"] ++ (if contents.isEmpty then [] else header ++ contents) ++ [L "};"] then []
         else ["struct-block"]
       | _ => ["impl-error"]
     pure (Json.mkObj [("model", S r), ("failed", clauses failed)])
   | "cpp.namespace" =>
     let ids ← strListField j "ids"
     let contents ← strListField j "contents"
-    let t : TB := { lines := contents }
+    let header := (strListField j "header").toOption.getD []
+    let t : TB := { header := header, lines := contents }
     let r := namespaceStr ids t
     let nsS : Str := if ids.isEmpty then [] else L " " ++ join (L "::") ids
     let failed := if impl.isNull then [] else
       match impl.getStr? with
       | .ok s => Spec.holdsC20_block (L "namespace" ++ nsS ++ L " {") (L "} // namespace" ++ nsS)
-                   (L "namespace" ++ nsS ++ L " {}") contents s.toList
+                   (L "namespace" ++ nsS ++ L " {}") (if contents.isEmpty then [] else header ++ contents) s.toList
       | _ => ["impl-error"]
     pure (Json.mkObj [("model", S r), ("failed", clauses failed)])
   | "cpp.misc" =>
